@@ -10,7 +10,8 @@ through `stat` / `realpath`, which walk the *raw* '/'-separated segments the way
 (a regular file followed by anything, even a lone '/', is ENOTDIR; `..` is the physical parent).
 
 Outside the model (the harness never generates it, and says so):
-* the Java/Kotlin partial-path lookup (`map_partial_path`, keys with extension `java`/`kt`);
+* (the Java/Kotlin partial-path lookup `map_partial_path` is NOT in this file's `rewritePaths`; it
+  is inside `rewritePathsJ` of GrcovModel/Rewrite/Partial.lean, which re-uses the helpers below);
 * exclusion markers (`FileFilter` is the default one: `create` returns no filter, C16 has them);
 * symlinks; mapping values that are not JSON strings; a key or mapped value whose first character
   is a cased non-ASCII letter (`to_lowercase_first` is modelled on ASCII);
